@@ -33,7 +33,7 @@ func init() {
 			}
 			return ps
 		},
-		MinObserved: []string{"responses_checked", "goldap_responses_checked", "responses_from_a_request_with_several_responses", "responses_written_again_after_further_setters", "requests_answered_by_another_requests_handler", "responses_built_with_options_their_constructor_does_not_support", "scripts_carried_by_add_delete_and_modify_requests", "requests_whose_message_id_was_padded_with_zero_octets", "extended_responses_given_a_response_name"},
+		MinObserved: []string{"responses_checked", "goldap_responses_checked", "responses_from_a_request_with_several_responses", "responses_written_again_after_further_setters", "requests_answered_by_another_requests_handler", "responses_built_with_options_their_constructor_does_not_support", "scripts_carried_by_add_delete_and_modify_requests", "requests_whose_message_id_was_padded_with_zero_octets", "extended_responses_given_a_response_name", "entries_whose_attribute_map_was_reused_before_the_write"},
 	})
 }
 
@@ -224,7 +224,7 @@ func genScript(r *Rand, ctor string) *c04Script {
 	return s
 }
 
-var c04Foreign, c04OtherKinds, c04PaddedIDs, c04RespNames atomic.Int64
+var c04Foreign, c04OtherKinds, c04PaddedIDs, c04RespNames, c04MapsReused atomic.Int64
 
 type c04Parked struct {
 	req  *gldap.Request
@@ -330,6 +330,7 @@ func runGroup(w *gldap.ResponseWriter, r *gldap.Request, group []*c04Script) err
 
 func (s *c04Script) build(r *gldap.Request) *c04Built {
 	var opts []gldap.Option
+	var handed map[string][]string
 	for _, k := range s.OptOrder {
 		switch k {
 		case 0:
@@ -350,7 +351,13 @@ func (s *c04Script) build(r *gldap.Request) *c04Built {
 			}
 		case 4:
 			if s.HasAttrs {
-				opts = append(opts, gldap.WithAttributes(s.OptAttrs))
+				// the constructor gets a map of its own, which the handler goes on using for other things afterwards (see
+				// below): the entry has the attributes the map had when the entry was made
+				handed = map[string][]string{}
+				for n, v := range s.OptAttrs {
+					handed[n] = append([]string{}, v...)
+				}
+				opts = append(opts, gldap.WithAttributes(handed))
 			}
 		}
 	}
@@ -389,6 +396,14 @@ func (s *c04Script) build(r *gldap.Request) *c04Built {
 	case "NewSearchResponseEntry":
 		x := r.NewSearchResponseEntry(string(s.EntryDN), opts...)
 		b.resp, b.base, b.addAttr = x, x, x.AddAttribute
+		if handed != nil {
+			// the map is re-used for the next entry
+			for n := range handed {
+				handed[n] = []string{"re-used for another entry"}
+			}
+			handed["added-to-the-map-after-the-entry-was-made"] = []string{"x"}
+			c04MapsReused.Add(1)
+		}
 	case "NewExtendedResponse":
 		x := r.NewExtendedResponse(opts...)
 		b.resp, b.base, b.setName = x, x, x.SetResponseName
@@ -792,6 +807,7 @@ func c04Scripts(c *Ctx, useTLS bool) {
 	c.Count("scripts_carried_by_add_delete_and_modify_requests", c04OtherKinds.Swap(0))
 	c.Count("requests_whose_message_id_was_padded_with_zero_octets", c04PaddedIDs.Swap(0))
 	c.Count("extended_responses_given_a_response_name", c04RespNames.Swap(0))
+	c.Count("entries_whose_attribute_map_was_reused_before_the_write", c04MapsReused.Swap(0))
 }
 
 // c04GoLDAP pushes Bind and Search flows through go-ldap as a second observer.
